@@ -25,7 +25,7 @@ class Unsupported(Exception):
 
 
 # ------------------------------------------------------------------ lexer
-TOK = re.compile(r"\s*(0[xX][0-9a-fA-F]+[uUlL]*|\d+[uUlL]*|[A-Za-z_]\w*|<<=|>>=|\|\||&&|==|!=|<=|>=|<<|>>|"
+TOK = re.compile(r"\s*(0[xX][0-9a-fA-F]+[uUlL]*|\d+[uUlL]*|[A-Za-z_]\w*|->|<<=|>>=|\|\||&&|==|!=|<=|>=|<<|>>|"
                  r"\+=|-=|\*=|/=|%=|&=|\|=|\^=|\+\+|--|[-+*/%&|^~!<>=?:;,(){}\[\]])")
 
 
@@ -327,6 +327,189 @@ def function_to_lean(repo, rel, cname, lean_name, macros, width, doc):
     return "/-- %s -/\ndef %s %s : BitVec %d :=\n%s\n" % (doc, lean_name, args, width, "\n".join(lines))
 
 
+# ------------------------------------------------------------------ signed-int functions over struct fields
+class IntParser:
+    """expressions over C `int` fields / locals, rendered on Lean `Int` (overflow is outside the model:
+    the theorems bound the values); conditions are rendered as decidable propositions"""
+
+    def __init__(self, toks, env, obj):
+        self.t, self.i, self.env, self.obj = toks, 0, env, obj
+
+    def peek(self):
+        return self.t[self.i] if self.i < len(self.t) else None
+
+    def eat(self, x=None):
+        tok = self.peek()
+        if tok is None or (x is not None and tok != x):
+            raise Unsupported("expected %r, found %r" % (x, tok))
+        self.i += 1
+        return tok
+
+    def cond(self):
+        a = self.cand()
+        while self.peek() == "||":
+            self.eat()
+            a = "(%s ∨ %s)" % (a, self.cand())
+        return a
+
+    def cand(self):
+        a = self.catom()
+        while self.peek() == "&&":
+            self.eat()
+            a = "(%s ∧ %s)" % (a, self.catom())
+        return a
+
+    def catom(self):
+        if self.peek() == "!":
+            self.eat()
+            return "(¬ %s)" % self.catom()
+        save = self.i
+        if self.peek() == "(":
+            # either a parenthesised condition or a parenthesised arithmetic operand
+            try:
+                self.eat("(")
+                c = self.cond()
+                self.eat(")")
+                if self.peek() in (None, ")", "&&", "||"):
+                    return c
+            except Unsupported:
+                pass
+            self.i = save
+        a = self.arith()
+        op = self.peek()
+        if op in ("==", "!=", "<", "<=", ">", ">="):
+            self.eat()
+            b = self.arith()
+            return "(%s %s %s)" % (a, {"==": "=", "!=": "≠", "<": "<", "<=": "≤", ">": ">", ">=": "≥"}[op], b)
+        return "(%s ≠ 0)" % a
+
+    def arith(self):
+        a = self.term()
+        while self.peek() in ("+", "-"):
+            op = self.eat()
+            a = "(%s %s %s)" % (a, op, self.term())
+        return a
+
+    def term(self):
+        a = self.factor()
+        while self.peek() == "*":
+            self.eat()
+            a = "(%s * %s)" % (a, self.factor())
+        return a
+
+    def factor(self):
+        tok = self.peek()
+        if tok == "-":
+            self.eat()
+            return "(-%s)" % self.factor()
+        if tok == "(":
+            self.eat()
+            e = self.arith()
+            self.eat(")")
+            return e
+        if tok is None:
+            raise Unsupported("unexpected end of expression")
+        self.eat()
+        if re.match(r"\d+$", tok):
+            return tok
+        if tok == self.obj and self.peek() == "->":
+            self.eat("->")
+            f = self.eat()
+            if f not in self.env:
+                raise Unsupported("field %s is not a translated field" % f)
+            return self.env[f]
+        if tok in self.env and tok != self.obj:
+            return self.env[tok]
+        raise Unsupported("unexpected token %r" % tok)
+
+
+def int_function_to_lean(repo, rel, cname, lean_name, fields, doc):
+    """`int f(struct *p)` whose body is nested if/else with a `return <int expression>;` at every leaf
+    (plus `int x = <expr>;` locals), over the given int fields of *p"""
+    src = open(os.path.join(repo, rel), errors="replace").read()
+    m = re.search(r"\b%s\s*\(([^)]*)\)\s*\{" % re.escape(cname), src)
+    if not m:
+        raise Unsupported("function %s not found in %s" % (cname, rel))
+    obj = re.split(r"\s+|\*", m.group(1).strip())[-1]
+    i, lvl = m.end(), 1
+    while lvl:
+        if i >= len(src):
+            raise Unsupported("unterminated body of " + cname)
+        lvl += {"{": 1, "}": -1}.get(src[i], 0)
+        i += 1
+    toks = lex(src[m.end():i - 1])
+    pos = [0]
+    env = {f: f for f in fields}
+    env[obj] = obj
+
+    def until(stop):
+        j, l2 = pos[0], 0
+        while j < len(toks) and not (toks[j] == stop and l2 == 0):
+            l2 += {"(": 1, ")": -1}.get(toks[j], 0)
+            j += 1
+        if j >= len(toks):
+            raise Unsupported("missing %r in %s" % (stop, cname))
+        sub = toks[pos[0]:j]
+        pos[0] = j + 1
+        return sub
+
+    def parse_all(p, what):
+        e = what()
+        if p.peek() is not None:
+            raise Unsupported("cannot parse %r in %s" % (p.t, cname))
+        return e
+
+    def seq(indent, env_):
+        """statements up to the closing brace / end; every path must return; gives a Lean term"""
+        if pos[0] >= len(toks) or toks[pos[0]] == "}":
+            raise Unsupported("a path of %s does not return" % cname)
+        t = toks[pos[0]]
+        if t == "return":
+            pos[0] += 1
+            p = IntParser(until(";"), env_, obj)
+            return parse_all(p, p.arith)
+        if t == "int" and pos[0] + 2 < len(toks) and toks[pos[0] + 2] == "=":
+            name = toks[pos[0] + 1]
+            pos[0] += 3
+            p = IntParser(until(";"), env_, obj)
+            e = parse_all(p, p.arith)
+            env2 = dict(env_)
+            env2[name] = name
+            return "let %s : Int := %s\n%s%s" % (name, e, indent, seq(indent, env2))
+        if t == "if":
+            pos[0] += 1
+            if toks[pos[0]] != "(":
+                raise Unsupported("if without ( in " + cname)
+            pos[0] += 1
+            p = IntParser(until(")"), env_, obj)
+            c = parse_all(p, p.cond)
+            a = branch(indent + "  ", env_)
+            if pos[0] < len(toks) and toks[pos[0]] == "else":
+                pos[0] += 1
+                b = branch(indent + "  ", env_)
+                return "if %s then\n%s  %s\n%selse\n%s  %s" % (c, indent, a, indent, indent, b)
+            b = seq(indent + "  ", env_)
+            return "if %s then\n%s  %s\n%selse\n%s  %s" % (c, indent, a, indent, indent, b)
+        raise Unsupported("statement starting with %r in %s" % (t, cname))
+
+    def branch(indent, env_):
+        if toks[pos[0]] == "{":
+            pos[0] += 1
+            e = seq(indent, env_)
+            if pos[0] >= len(toks) or toks[pos[0]] != "}":
+                raise Unsupported("missing } in " + cname)
+            pos[0] += 1
+            return e
+        return seq(indent, env_)
+
+    body = seq("  ", env)
+    if pos[0] != len(toks):
+        raise Unsupported("trailing statements in " + cname)
+    args = " ".join("(%s : Int)" % f for f in fields)
+    return "/-- %s -/\ndef %s %s : Int :=\n  %s\n" % (doc, lean_name, args, body)
+
+
+
 REQUESTS = [
     ("macro", "muggle/c/base/utils.h", "MUGGLE_IS_POW_OF_2", "isPow2Macro", 64, "`MUGGLE_IS_POW_OF_2` (base/utils.h) on a 64-bit operand"),
     ("func", "muggle/c/base/utils.c", "muggle_next_pow_of_2", "nextPow2", 64, "`muggle_next_pow_of_2` (base/utils.c)"),
@@ -337,6 +520,14 @@ REQUESTS = [
     ("macro", "muggle/c/os/endian.h", "MUGGLE_ENDIAN_SWAP_64", "swap64", 64, "`MUGGLE_ENDIAN_SWAP_64` (os/endian.h)"),
 ]
 HEADERS = ["muggle/c/base/utils.h", "muggle/c/base/macro.h", "muggle/c/os/endian.h"]
+BB = "muggle/c/memory/bytes_buffer.c"
+BB_FIELDS = ["c", "w", "r", "t"]
+INT_REQUESTS = [
+    (BB, "muggle_bytes_buffer_contiguous_writable", "bbContiguousWritable", BB_FIELDS),
+    (BB, "muggle_bytes_buffer_jump_writable", "bbJumpWritable", BB_FIELDS),
+    (BB, "muggle_bytes_buffer_jump_readable", "bbJumpReadable", BB_FIELDS),
+    (BB, "muggle_bytes_buffer_contiguous_readable", "bbContiguousReadable", BB_FIELDS),
+]
 
 
 def generate(repo):
@@ -350,6 +541,9 @@ def generate(repo):
             out.append(macro_to_lean(cname, lname, macros, width, doc))
         else:
             out.append(function_to_lean(repo, rel, cname, lname, macros, width, doc))
+    for rel, cname, lname, fields in INT_REQUESTS:
+        out.append(int_function_to_lean(repo, rel, cname, lname, fields,
+                                        "`%s` (%s) over the fields %s of the buffer" % (cname, rel, ", ".join(fields))))
     out.append("end MgModel.Generated")
     return "\n".join(out) + "\n"
 
